@@ -1048,7 +1048,9 @@ func (agg *aggregate) Process(ctx context.Context, man gdbi.Manager, in gdbi.InP
 					if val != nil {
 						fval, err := cast.ToFloat64E(val)
 						if err != nil {
+							// not a numeric value: report it, but do not count it as 0
 							outErr = fmt.Errorf("histogram aggregation: can't convert %v to float64", val)
+							continue
 						}
 						fieldValues = append(fieldValues, fval)
 						if c > maxValues {
@@ -1084,9 +1086,14 @@ func (agg *aggregate) Process(ctx context.Context, man gdbi.Manager, in gdbi.InP
 				td := tdigest.New()
 				for t := range aChans[a.Name] {
 					val := jsonpath.TravelerPathLookup(t, pagg.Field)
+					if val == nil {
+						// missing value: nothing to add
+						continue
+					}
 					fval, err := cast.ToFloat64E(val)
 					if err != nil {
 						outErr = fmt.Errorf("percentile aggregation: can't convert %v to float64", val)
+						continue
 					}
 					td.Add(fval, 1)
 				}
